@@ -585,6 +585,27 @@ fn deterministic_cases() -> Vec<Case> {
                 out.push(mk(base.clone(), fs, "src", output, json!({"text": cfg}), ff, "rule-error", json!([{"p": "src/a.lua", "kind": "rule-error"}, {"p": "src/util/c.lua", "kind": "rule-error"}])));
             }
         }
+        // nested `.luaurc` files: the alias a file sees is the one of the nearest `.luaurc`, whatever was processed before it
+        let rc_cfg = json!({"generator": "retain_lines", "rules": [{"rule": "convert_require", "current": "luau", "target": {"name": "path"}}]}).to_string();
+        let n = vec![
+            t("proj/.luaurc", "{\"aliases\": {\"lib\": \"./libA\"}}"),
+            t("proj/pkg/.luaurc", "{\"aliases\": {\"lib\": \"./libB\"}}"),
+            t("proj/pkg/deep/.luaurc", "{\"aliases\": {\"lib\": \"../libB\", \"other\": \"../../libA\"}}"),
+            t("proj/libA/mod.lua", "return 'A'\n"),
+            t("proj/pkg/libB/mod.lua", "return 'B'\n"),
+            t("proj/main.lua", "local m = require('@lib/mod')\nreturn m\n"),
+            t("proj/aaa.lua", "local m = require('@lib/mod')\nreturn m, 1\n"),
+            t("proj/zzz.lua", "local m = require('@lib/mod')\nreturn m, 2\n"),
+            t("proj/pkg/inner.lua", "local m = require('@lib/mod')\nreturn m, 3\n"),
+            t("proj/pkg/deep/leaf.lua", "local m = require('@lib/mod')\nlocal o = require('@other/mod')\nreturn m, o\n"),
+            t("proj/other/side.lua", "local m = require('@lib/mod')\nreturn m, 4\n"),
+        ];
+        for reps_seed in [7u64, 8, 9] {
+            let mut c = mk(n.clone(), fs, "proj", Some("out"), json!({"text": rc_cfg}), false, "nested-luaurc", json!([]));
+            c["order_seed"] = json!(reps_seed);
+            c["reps"] = json!(6);
+            out.push(c);
+        }
         // bundling: a chain, a missing module, an entry that requires a broken module
         let bundle_cfg = json!({"generator": "retain_lines", "rules": ["remove_comments"], "bundle": {"require_mode": {"name": "path", "use_luau_configuration": false}, "modules_identifier": "__MODS"}}).to_string();
         let n = vec![
